@@ -24,7 +24,7 @@ RULE = ('cases = (a, b, strict, presorted, b-field permutation, row container ty
         'duplicates exist on one side only. Distinct = SHA-1 of the case.')
 ASSUMPTIONS = ['rectangular tables with hashable cells (property domain)',
                'row equality is Python == on row tuples (1 == 1.0 == True)']
-REQUIRED = ['dup-only-in-a', 'dup-only-in-b', 'dup-both-different-counts', 'b-exhausted-first', 'a-exhausted-first',
+REQUIRED = ['inputs-are-petl-views', 'data-row-equal-to-a-header', 'dup-only-in-a', 'dup-only-in-b', 'dup-both-different-counts', 'b-exhausted-first', 'a-exhausted-first',
             'strict-with-dup-in-a', 'a-empty', 'b-empty', 'presorted', 'permuted-b-header', 'list-vs-tuple-rows']
 EXHAUSTIVE = {'quick': False, 'thorough': False}
 
@@ -64,8 +64,16 @@ def cases(ctx):
         if nf > 1 and rng.random() < 0.4:
             perm = list(range(nf))
             rng.shuffle(perm)
-        yield {'a': a, 'b': b, 'strict': rng.random() < 0.4, 'presorted': rng.random() < 0.3, 'perm': perm,
-               'tuples': (rng.random() < 0.5, rng.random() < 0.5)}
+        # a data row equal to a header row (a repeated header line in concatenated files) is a row like any other
+        if rng.random() < 0.12:
+            for t, other in ((a, b), (b, a)):
+                for _ in range(rng.choice([0, 1, 1, 2])):
+                    t.insert(rng.randint(1, len(t)), list(other[0]))
+        presorted = rng.random() < 0.3
+        # the inputs may themselves be petl views of any kind (a descending or keyed sort, a pass-through, ...)
+        wrap = (None, None) if (presorted or rng.random() < 0.75) else (rng.choice(WRAPS), rng.choice(WRAPS))
+        yield {'a': a, 'b': b, 'strict': rng.random() < 0.4, 'presorted': presorted, 'perm': perm,
+               'tuples': (rng.random() < 0.5, rng.random() < 0.5), 'wrap': wrap}
 
 
 def _cnt(rows):
@@ -77,10 +85,28 @@ def _subseq(sub, seq):
     return all(any(x == y for y in it) for x in sub)
 
 
-def _container(table, as_tuples):
+from petl.util.materialise import cache as _petl_cache  # noqa: E402
+WRAPS = [None, 'sort-reverse', 'sort-last-field', 'sort-reverse-chunked', 'sort', 'cat', 'cache', 'wrap']
+
+
+def _container(table, as_tuples, wrap=None):
     t = copy.deepcopy(table)
     if as_tuples:
-        return [tuple(t[0])] + [tuple(r) for r in t[1:]]
+        t = [tuple(t[0])] + [tuple(r) for r in t[1:]]
+    if wrap == 'sort-reverse':
+        return petl.sort(t, reverse=True)
+    if wrap == 'sort-reverse-chunked':
+        return petl.sort(t, reverse=True, buffersize=2)
+    if wrap == 'sort-last-field':
+        return petl.sort(t, len(t[0]) - 1, reverse=True)
+    if wrap == 'sort':
+        return petl.sort(t)
+    if wrap == 'cat':
+        return petl.cat(t)
+    if wrap == 'cache':
+        return _petl_cache(t)
+    if wrap == 'wrap':
+        return petl.wrap(t)
     return t
 
 
@@ -132,9 +158,18 @@ def judge(case, ctx):
     brows_strict = Counter(util.crow(r) for r in rb)
     out = []
 
+    wa, wb = case.get('wrap') or (None, None)
+    if wa or wb:
+        ctx.seen('inputs-are-petl-views')
+    if hdr_b in ca or hdr_a in cb or hdr_a in ca or hdr_b in cb:
+        ctx.seen('data-row-equal-to-a-header')
+
+    def plain():
+        return _container(a0, case['tuples'][0], wa), _container(b0, case['tuples'][1], wb)
+
     def tables():
-        a = _container(a0, case['tuples'][0])
-        b = _container(b0, case['tuples'][1])
+        a = _container(a0, case['tuples'][0], wa)
+        b = _container(b0, case['tuples'][1], wb)
         if case['presorted']:
             a = [a[0]] + sorted(a[1:], key=lambda r: util.model_key(tuple(r)))
             b = [b[0]] + sorted(b[1:], key=lambda r: util.model_key(tuple(r)))
@@ -168,10 +203,11 @@ def judge(case, ctx):
     comp = check('complement', lambda: petl.complement(a, b, **pk, **sk), hdr_a, exp_comp, arows_strict)
     a, b = tables()
     inter = check('intersection', lambda: petl.intersection(a, b, **pk), hdr_a, exp_int, arows_strict)
-    a, b = _container(a0, case['tuples'][0]), _container(b0, case['tuples'][1])
-    check('hashcomplement', lambda: petl.hashcomplement(a, b, **sk), hdr_a, exp_comp, arows_strict, order_of=ra)
-    a, b = _container(a0, case['tuples'][0]), _container(b0, case['tuples'][1])
-    check('hashintersection', lambda: petl.hashintersection(a, b), hdr_a, exp_int, arows_strict, order_of=ra)
+    a, b = plain()
+    a_order = [tuple(r) for r in util.rows_of(a)[1:]] if wa else ra      # the order in which the (view) input a delivers its rows
+    check('hashcomplement', lambda: petl.hashcomplement(a, b, **sk), hdr_a, exp_comp, arows_strict, order_of=a_order)
+    a, b = plain()
+    check('hashintersection', lambda: petl.hashintersection(a, b), hdr_a, exp_int, arows_strict, order_of=a_order)
     a, b = tables()
     dres = util.attempt(lambda: petl.diff(a, b, **pk, **sk))
     if isinstance(dres, util.Raised):
@@ -186,14 +222,14 @@ def judge(case, ctx):
     # record variants: b's fields permuted, aligned by name
     perm = case['perm']
     if not case['presorted']:
-        a, b = tables()
+        a = _container(a0, case['tuples'][0], wa)
+        bp = b0
         if perm is not None:
             ctx.seen('permuted-b-header')
-            b = [[b[0][i] for i in perm]] + [[r[i] for i in perm] for r in b[1:]]
-            if case['tuples'][1]:
-                b = [tuple(r) for r in b]
+            bp = [[b0[0][i] for i in perm]] + [[r[i] for i in perm] for r in b0[1:]]
+        b = _container(bp, case['tuples'][1], wb)
         bsrc_strict = Counter(util.crow([r[i] for i in perm] if perm else r) for r in rb)
-        bperm_hdr = tuple(b[0])
+        bperm_hdr = tuple(bp[0])
         check('recordcomplement', lambda: petl.recordcomplement(a, b, **sk), hdr_a, exp_comp, arows_strict)
         rres = util.attempt(lambda: petl.recorddiff(a, b, **sk))
         if isinstance(rres, util.Raised):
